@@ -179,16 +179,40 @@ def run(chk: Check):
             data[:, j] = gen_values(rng, grids[j], nrows, chk) if nrows else []
         reqs.append(f"snap.digitize {ncols} " + " ".join(fl(g) for g in grids) + f" {nrows} "
                     + " ".join(f2h(x) for x in data.flatten().tolist()))
-        meta.append(("digitize", grids, data))
-        chk.count(f"shape:{nrows}x{ncols}")
+        # "all array shapes": the rows may carry trailing axes (rows x parameters x stack); the model sees the equivalent two-dimensional problem
+        stack = rng.choice([0, 0, 0, 1, 2, 3]) if nrows else 0
+        if stack and nrows % stack == 0 and nrows // stack >= 1:
+            r3 = nrows // stack
+            data3 = data.reshape(r3, stack, ncols).transpose(0, 2, 1).copy()         # [r, j, k] = data[r*stack + k, j]
+            meta.append(("digitize3", grids, (data, data3)))
+            chk.count(f"shape:{r3}x{ncols}x{stack}")
+        else:
+            meta.append(("digitize", grids, data))
+            chk.count(f"shape:{nrows}x{ncols}")
 
     answers = lean_run(reqs)
     grid_buffers = {}
     for (kind, grid, vals), ans in zip(meta, answers):
-        if kind == "digitize":
+        if kind in ("digitize", "digitize3"):
             grids, data = grid, vals
-            before = data.copy()
-            out = digitize_data(data, grids)
+            if kind == "digitize3":
+                data, data3 = vals
+                b3 = data3.copy()
+                try:
+                    out3 = digitize_data(data3, grids)
+                except Exception as e:  # noqa: BLE001
+                    chk.case(["dig3", [g.tolist() for g in grids], data3.tolist()], True, {"op": "digitize_data", "shape": list(data3.shape), "raised": type(e).__name__})
+                    chk.fail(f"digitize_data raised {type(e).__name__}: {str(e)[:80]} on data of shape {data3.shape} (rows x parameters x stack)",
+                             {"case": {"kind": "digitize3", "grids": [[f2h(x) for x in g] for g in grids], "shape": list(data3.shape), "values": [f2h(v) for v in data3.flatten()]}})
+                    continue
+                if out3.shape != data3.shape or not np.array_equal(b3, data3):
+                    chk.fail("digitize_data changes the shape of / modifies a 3-d input", {"shape_in": data3.shape, "shape_out": out3.shape})
+                    continue
+                out = out3.transpose(0, 2, 1).reshape(-1, len(grids))
+                before = data.copy()
+            else:
+                before = data.copy()
+                out = digitize_data(data, grids)
             impl = " ".join(f2h(x) for x in out.flatten().tolist())
             nontriv = data.shape[0] > 0 and data.shape[1] > 1
             chk.case(["dig", [g.tolist() for g in grids], data.tolist()], nontriv,
